@@ -282,6 +282,7 @@ pub fn finish(monitor: &dyn Monitor, cfg: &RunCfg, streams: &[StreamSpec], merge
             .set("idx", Json::u(v.idx))
             .set("seed", Json::u(cfg.seed))
             .set("tier", Json::s(cfg.tier.name()))
+            .set("threads", Json::u(cfg.threads as u64))
             .set("layer", Json::s(&cfg.layer));
         let _ = std::fs::write(&path, j.render());
         vjson.push(
